@@ -1093,47 +1093,61 @@ func implJarRepro(f []string, tmp string) string {
 
 // ---------------------------------------------------------------------------------------------
 
-func Impl() {
-	tmp, err := os.MkdirTemp("", "verif-c09-")
-	if err != nil {
-		panic(err)
-	}
-	defer os.RemoveAll(tmp)
-	quiet := false
-	hx.EachLine(func(f []string) string {
-		if !quiet { // doRequest prints progress with fmt.Printf; keep it out of the protocol stream
-			if dn, err := os.OpenFile(os.DevNull, os.O_WRONLY, 0); err == nil {
-				os.Stdout = dn
-			}
-			quiet = true
-		}
-		if len(f) < 1 {
-			return "bad-op"
-		}
-		switch f[0] {
-		case "merkle":
-			return implMerkle(f[1:])
-		case "cksum":
-			return implCksum(f[1:])
-		case "fixpe":
-			return implFixPE(f[1:], tmp)
-		case "fixpehex":
-			return implFixPEHex(f[1:], tmp)
-		case "selenc":
-			return implSelEnc(f[1:])
-		case "xport":
-			return implXport(f[1:], tmp)
-		case "xdown":
-			return implXdown(f[1:], tmp)
-		case "xlinger":
-			return implXlinger(f[1:], tmp)
-		case "frag":
-			return implFrag(f[1:], tmp)
-		case "transform":
-			return implTransform(f[1:], tmp)
-		case "jarrepro":
-			return implJarRepro(f[1:], tmp)
-		}
+// dispatch runs one op (fields after the "C09" token)
+func dispatch(f []string, tmp string) string {
+	if len(f) < 1 {
 		return "bad-op"
+	}
+	switch f[0] {
+	case "merkle":
+		return implMerkle(f[1:])
+	case "cksum":
+		return implCksum(f[1:])
+	case "fixpe":
+		return implFixPE(f[1:], tmp)
+	case "fixpehex":
+		return implFixPEHex(f[1:], tmp)
+	case "selenc":
+		return implSelEnc(f[1:])
+	case "xport":
+		return implXport(f[1:], tmp)
+	case "xdown":
+		return implXdown(f[1:], tmp)
+	case "xlinger":
+		return implXlinger(f[1:], tmp)
+	case "frag":
+		return implFrag(f[1:], tmp)
+	case "transform":
+		return implTransform(f[1:], tmp)
+	case "jarrepro":
+		return implJarRepro(f[1:], tmp)
+	}
+	return "bad-op"
+}
+
+var (
+	handleOnce sync.Once
+	handleTmp  string
+)
+
+// Handle runs one C09 op; usable from the shared dispatcher (properties that reuse C09 ops, e.g. C05)
+func Handle(f []string) string {
+	handleOnce.Do(func() {
+		tmp, err := os.MkdirTemp("", "verif-c09-")
+		if err != nil {
+			panic(err)
+		}
+		handleTmp = tmp
+		hx.OnExit(func() { os.RemoveAll(tmp) })
+		// doRequest prints progress with fmt.Printf; keep it out of the protocol stream
+		if dn, err := os.OpenFile(os.DevNull, os.O_WRONLY, 0); err == nil {
+			os.Stdout = dn
+		}
 	})
+	return dispatch(f, handleTmp)
+}
+
+func Impl() {
+	defer hx.RunOnExit()
+	hx.EachLine(Handle)
 }
